@@ -66,7 +66,11 @@ func loopEntry[T any](x T) T                     { return x }
 func exactCmpIF(i int64, f float64) int          { return 0 }
 func errIsCtx(err error) bool                    { return false }
 func sameSlice[T any](a, b []T) bool             { return len(a) == len(b) }
+func sameVal[T any](a, b T) bool                  { return true }
 func uninterp[T any](name string, args ...any) T { var z T; return z }
+func outCount() int                              { return 0 }
+func outFirst() any                              { return nil }
+func outLast() any                               { return nil }
 
 //@ sweep safety C05
 
@@ -232,6 +236,7 @@ func uninterp[T any](name string, args ...any) T { var z T; return z }
 //@ ensures [C14 C09] operand: ncalls(exec.executeItem) == 1 && callarg[ast.Node](exec.executeItem, "node") == node && callarg[any](exec.executeItem, "value") == value
 //@ ensures [C14 C08] failure-reported: callret[resultStatus](exec.executeItem, 0) == statusFailed ==> r1 != nil
 //@ ensures [C20 C08] hard-error-kept: callret[error](exec.executeItem, 1) != nil ==> r1 == callret[error](exec.executeItem, 1)
+//@ ensures [C05 C14] own-errors-suppressible: r1 != nil && r1 != callret[error](exec.executeItem, 1) && ncalls(getJSONInt32) == 0 ==> errIs(r1, ErrVerbose) && !errIs(r1, ErrInvalid)
 
 //@ func (*Executor).execSubscript
 //@ props C07 C14
